@@ -39,12 +39,30 @@ Definition r2_v : value := VModel [([107], VStr [113]); ([115], r2_subv [])].
 Definition r2_back : value := VModel [([107], VStr [113]); ([115], r2_subv [120])].
 Definition r2_cells : list (str * str) := [([107], [113]); ([115], [97; 59; 124])].
 
-Lemma packed_blank_refuted :
-  row_dom r2_ty r2_v [[115]] = false
-  /\ unparse_row r2_ty r2_v [[115]] [] = Ok r2_cells
-  /\ parse_row {| rm_ty := r2_ty; rm_ctx := None |} r2_cells = Ok r2_back
+(* the repaired join_from_lists keeps the empty last element of the pair: the cell is a;;| *)
+Definition r2_cells_kept : list (str * str) := [([107], [113]); ([115], [97; 59; 59; 124])].
+
+(* the READER is the same on either tree: a;| is the one-element list [a] (decoded positionally: the field
+   returns to its default), a;;| is the pair [a, ""] *)
+Lemma packed_blank_reader :
+  parse_row {| rm_ty := r2_ty; rm_ctx := None |} r2_cells = Ok r2_back
+  /\ parse_row {| rm_ty := r2_ty; rm_ctx := None |} r2_cells_kept = Ok r2_v
   /\ r2_back <> r2_v.
 Proof. repeat split; try (vm_compute; reflexivity). discriminate. Qed.
+
+(* DECIDED by the probed constant join_keeps_blank_last (translator/tables_rowfix.py): on the repaired tree the
+   instance is inside the domain of the round-trip theorem, is written a;;| and comes back; on the tree with
+   the finding it is outside the domain, is written a;| and comes back with the default *)
+Lemma packed_blank_decided :
+  if join_keeps_blank_last
+  then row_dom r2_ty r2_v [[115]] = true
+       /\ unparse_row r2_ty r2_v [[115]] [] = Ok r2_cells_kept
+       /\ parse_row {| rm_ty := r2_ty; rm_ctx := None |} r2_cells_kept = Ok r2_v
+  else row_dom r2_ty r2_v [[115]] = false
+       /\ unparse_row r2_ty r2_v [[115]] [] = Ok r2_cells
+       /\ parse_row {| rm_ty := r2_ty; rm_ctx := None |} r2_cells = Ok r2_back
+       /\ r2_back <> r2_v.
+Proof. vm_compute. repeat split; first [reflexivity | (intros H; discriminate H)]. Qed.
 
 (* the same instance is inside the domain, and comes back, when the sub-model is spread *)
 Lemma packed_blank_spread_ok :
